@@ -489,3 +489,141 @@ Proof.
   { apply list_eqb_eq. intros; apply N.eqb_eq. }
   rewrite (list_eqb_eq bytes_eqb Hb). split; [intros ->; reflexivity | intro H; inversion H; reflexivity].
 Qed.
+
+(* ---------------------------------------------------------------------------------------- *)
+(* E. The simple sufficient condition of DESIGN.md (disjoint, or nothing is split) implies   *)
+(*    Dom_C30; in particular no panic there.                                                 *)
+(* ---------------------------------------------------------------------------------------- *)
+Lemma covers1_single_piece o : forall us, covers1 us o -> single_piece us o = true.
+Proof.
+  induction us as [|u us IH]; cbn [single_piece covers1]; intro H; [destruct H|].
+  destruct H as [(H1 & H2 & H3) | (H1 & H2)].
+  - destruct ((fst u <=? fst o) && (fst o <? snd u)) eqn:E; lia.
+  - destruct ((fst u <=? fst o) && (fst o <? snd u)) eqn:E; [lia|]. rewrite (IH H2). lia.
+Qed.
+
+Lemma coalesce_go_total bs : forall rest cur,
+  snd cur + bs < two64 -> Forall (fun r => snd r + bs < two64) rest ->
+  fst cur <= snd cur -> Forall (fun r => fst r <= snd r) rest ->
+  exists ms, coalesce_go bs cur rest = Ok ms /\ Forall (fun m => fst m <= snd m) ms.
+Proof.
+  induction rest as [|r rest IH]; intros cur Hc Hr Hwf Hne.
+  - exists [cur]. split; [reflexivity | constructor; [exact Hwf | constructor]].
+  - apply Forall_cons_iff in Hr. destruct Hr as [Hr Hr'].
+    apply Forall_cons_iff in Hne. destruct Hne as [Hne Hne'].
+    cbn [coalesce_go]. unfold is_close_together, add_chk.
+    destruct (two64 <=? snd cur + bs) eqn:E0; [lia|]. cbn [bind].
+    destruct (fst r <=? snd cur + bs) eqn:E1.
+    + apply IH; cbn [fst snd]; [lia | exact Hr' | lia | exact Hne'].
+    + destruct (IH r Hr Hr' Hne Hne') as (tl & Htl & Hwf'). rewrite Htl. cbn [bind].
+      exists (cur :: tl). split; [reflexivity | constructor; assumption].
+Qed.
+
+Lemma pieces_wf : forall k start bpr e, start + N.of_nat (k - 1) * bpr <= e ->
+  Forall (fun p => fst p <= snd p) (pieces k start bpr e).
+Proof.
+  induction k as [|k IH]; intros start bpr e H; [constructor|].
+  destruct k as [|k'].
+  - cbn [pieces]. constructor; [cbn [fst snd]; lia | constructor].
+  - change (pieces (S (S k')) start bpr e) with ((start, start + bpr) :: pieces (S k') (start + bpr) bpr e).
+    replace (N.of_nat (S (S k') - 1)) with (N.of_nat (S k' - 1) + 1) in H by lia.
+    constructor; [cbn [fst snd]; lia | apply IH; nia].
+Qed.
+
+Lemma split_all_total mx : 0 < mx -> forall ms, Forall (fun m => fst m <= snd m) ms ->
+  exists us, split_all mx ms = Ok us /\ Forall (fun u => fst u <= snd u) us.
+Proof.
+  intros Hmx. induction ms as [|m ms IH]; intro Hwf; [exists []; split; [reflexivity | constructor]|].
+  apply Forall_cons_iff in Hwf. destruct Hwf as [Hm Hwf].
+  destruct (IH Hwf) as (tl & Htl & Hwtl). cbn [split_all]. unfold split_one, r_is_empty.
+  destruct (fst m <? snd m) eqn:E; cbn [negb].
+  - destruct (mx =? 0) eqn:E0; [lia|]. cbn [bind]. rewrite Htl. cbn [bind].
+    eexists. split; [reflexivity|]. apply Forall_app. split; [|exact Hwtl].
+    set (size := snd m - fst m). set (n := div_ceil size mx).
+    assert (Hn : 1 <= n) by (apply div_ceil_pos; unfold size; lia).
+    assert (Hmul : n * (size / n) <= size) by (apply N.mul_div_le; lia).
+    apply pieces_wf. replace (N.of_nat (N.to_nat n - 1)) with (n - 1) by lia. unfold size in *. nia.
+  - cbn [bind]. rewrite Htl. cbn [bind]. eexists. split; [reflexivity|].
+    constructor; [exact Hm | exact Hwtl].
+Qed.
+
+Lemma sizes_chk_total : forall us, Forall (fun u => fst u <= snd u) us -> exists l, sizes_chk us = Ok l.
+Proof.
+  induction us as [|u us IH]; intro H; [exists []; reflexivity|].
+  apply Forall_cons_iff in H. destruct H as [Hu H]. destruct (IH H) as (l & Hl).
+  cbn [sizes_chk fold_right]. fold (sizes_chk us). rewrite Hl. unfold sub_chk.
+  destruct (snd u <? fst u) eqn:E; [lia|]. cbn [bind]. eexists; reflexivity.
+Qed.
+
+(* no panic: sorted-or-not, any non-empty ranges within u64 are coalesced, split and issued *)
+Lemma updated_requests_total bs mx rs :
+  0 < mx -> all_nonempty rs = true -> forallb (fun r => snd r + bs <? two64) rs = true ->
+  exists us, updated_requests bs mx rs = Ok us.
+Proof.
+  intros Hmx Hne Hb. unfold updated_requests.
+  assert (Hne' : Forall (fun r => fst r <= snd r) rs).
+  { unfold all_nonempty in Hne. rewrite forallb_forall in Hne. apply Forall_forall. intros x Hx. specialize (Hne x Hx). lia. }
+  assert (Hb' : Forall (fun r => snd r + bs < two64) rs).
+  { rewrite forallb_forall in Hb. apply Forall_forall. intros x Hx. specialize (Hb x Hx). lia. }
+  assert (Hms : exists ms, coalesce bs rs = Ok ms /\ Forall (fun m => fst m <= snd m) ms).
+  { destruct rs as [|r rest]; [exists []; split; [reflexivity | constructor]|].
+    apply Forall_cons_iff in Hne'. apply Forall_cons_iff in Hb'.
+    apply coalesce_go_total; tauto. }
+  destruct Hms as (ms & Hms & Hwm). rewrite Hms. cbn [bind].
+  destruct (split_all_total mx Hmx ms Hwm) as (us & Hus & Hwu). rewrite Hus. cbn [bind].
+  destruct (sizes_chk_total us Hwu) as (l & Hl). rewrite Hl. cbn [bind]. exists us; reflexivity.
+Qed.
+
+Lemma split_all_nosplit mx : 0 < mx -> forall ms,
+  forallb (fun m => snd m - fst m <=? mx) ms = true -> split_all mx ms = Ok ms.
+Proof.
+  intros Hmx. induction ms as [|m ms IH]; intro H; [reflexivity|].
+  cbn [forallb] in H. apply andb_true_iff in H. destruct H as [Hm H].
+  cbn [split_all]. rewrite (IH H). unfold split_one, r_is_empty.
+  destruct (fst m <? snd m) eqn:E; cbn [negb bind]; [|reflexivity].
+  destruct (mx =? 0) eqn:E0; [lia|]. cbn [bind].
+  assert (Hn : div_ceil (snd m - fst m) mx = 1).
+  { unfold div_ceil. destruct (N.eq_dec (snd m - fst m) mx) as [Heq | Hneq].
+    - rewrite Heq, N.div_same, N.mod_same by lia. reflexivity.
+    - rewrite N.div_small, N.mod_small by lia. destruct (snd m - fst m =? 0) eqn:Ez; lia. }
+  rewrite Hn. cbn [N.to_nat Pos.to_nat Pos.iter_op pieces app]. destruct m; reflexivity.
+Qed.
+
+Lemma mcovers_covers1 o : fst o < snd o -> forall ms, mcovers ms o -> covers1 ms o.
+Proof.
+  intros Hne. induction ms as [|m ms IH]; cbn [mcovers covers1]; intro H; [exact H|].
+  destruct H as [[H1 H2] | [H1 H2]]; [left; lia | right; split; [exact H1 | apply IH, H2]].
+Qed.
+
+Theorem Dom_simple_in_Dom bs mx rs : Dom_C30_simple bs mx rs = true -> Dom_C30 bs mx rs = true.
+Proof.
+  unfold Dom_C30_simple, Dom_C30. intro H.
+  apply andb_true_iff in H. destruct H as [H Hcase].
+  apply andb_true_iff in H. destruct H as [H Hb].
+  apply andb_true_iff in H. destruct H as [H Hne].
+  apply andb_true_iff in H. destruct H as [Hmx Hsort].
+  rewrite Hmx, Hsort, Hne, Hb. cbn [andb].
+  assert (Hmx' : 0 < mx) by lia.
+  destruct (updated_requests_total bs mx rs Hmx' Hne Hb) as (us & Hus). rewrite Hus.
+  apply orb_true_iff in Hcase. destruct Hcase as [Hdis | Hns].
+  - (* disjoint: every request ends before the later ones start *)
+    clear Hus. revert Hdis. clear. induction rs as [|r rs IH]; intro H; [reflexivity|].
+    cbn [disjoint_sorted straddle_ok] in *. apply andb_true_iff in H. destruct H as [H1 H2].
+    rewrite H1, (IH H2). now rewrite orb_true_r.
+  - (* nothing split: every request lies inside one issued range *)
+    unfold no_split in Hns. unfold updated_requests in Hus.
+    destruct (coalesce bs rs) as [ms| |] eqn:Ems; try discriminate. cbn [bind] in Hus.
+    rewrite (split_all_nosplit mx Hmx' ms Hns) in Hus. cbn [bind] in Hus.
+    destruct (sizes_chk ms); try discriminate. cbn [bind] in Hus. inversion Hus; subst us; clear Hus.
+    assert (Hall : forall o, In o rs -> single_piece ms o = true).
+    { intros o Ho. apply covers1_single_piece.
+      unfold all_nonempty in Hne. rewrite forallb_forall in Hne. specialize (Hne o Ho).
+      apply mcovers_covers1; [lia|].
+      destruct rs as [|r rest]; [destruct Ho|]. cbn [coalesce] in Ems.
+      destruct (starts_sorted_cons _ _ Hsort) as [Hge Hsort'].
+      apply (coalesce_go_covers bs _ _ _ Ems Hge Hsort').
+      destruct Ho as [Ho | Ho]; [subst o; left; lia | right; exact Ho]. }
+    clear - Hall. induction rs as [|r rs IH]; [reflexivity|].
+    cbn [straddle_ok]. rewrite (Hall r (or_introl eq_refl)). cbn [orb andb].
+    apply IH. intros o Ho. apply Hall. right; exact Ho.
+Qed.
